@@ -314,7 +314,7 @@ class KMeansMachine(BaseEstimator):
         data = da.array(data)
         data.rechunk(1, data.shape[-1])  # Prevents issue with large arrays.
         logger.debug("Get k-means centroids")
-        self.centroids_ = k_init(
+        centroids = k_init(
             X=data,
             n_clusters=self.n_clusters,
             init=self.init_method,
@@ -322,6 +322,9 @@ class KMeansMachine(BaseEstimator):
             max_iter=self.init_max_iter,
             oversampling_factor=self.oversampling_factor,
         )
+        # k_init returns the given array itself when `init_method` is an array:
+        # copy it so that the machine never shares memory with the caller's array
+        self.centroids_ = np.array(centroids)
         logger.debug("End of k-means initialization")
 
     def fit(self, X, y=None):
